@@ -81,7 +81,7 @@ def sum_stats(stats):
     return tot
 
 
-def query_check(run, gens, own_clauses, rule, assumptions, ops=False, mc=None):
+def query_check(run, gens, own_clauses, rule, assumptions, ops=False, mc=None, rnd=None):
     """Generic recipe for the families decided by QueryTrace.
     gens: list of (module, name, mod_quick, mod_thorough, cap_quick, cap_thorough, invariants, tickms)"""
     binary = vlib.build()
@@ -95,6 +95,11 @@ def query_check(run, gens, own_clauses, rule, assumptions, ops=False, mc=None):
         scs = vlib.generate(run, module, cfg, name, fam=run.prop, cap=(capq if quick else capt), timeout=1500)
         log("generated %s: %d scenarios (enumerated %s)" % (name, len(scs), run.cov["gen"][-1].get("enumerated")))
         scenarios += scs
+    if rnd:
+        gen, nq, nt = rnd
+        rs = vlib.gen_random(run, binary, gen, nq if quick else nt, run.prop)
+        log("random scenarios (%s): %d" % (gen, len(rs)))
+        scenarios += rs
     if not scenarios:
         raise Infra("no scenarios generated")
     chunks = max(1, min(vlib.NCPU // 2, len(scenarios) // 400))
@@ -191,4 +196,20 @@ def c06(run):
         assumptions=["Prometheus v0.40.1 is the reference", "values of transcendental functions are OPAQUE in the spec and compared with the reference by the Go comparator"])
 
 
-RECIPES = {"C02": c02, "C03": c03, "C04": c04, "C05": c05, "C06": c06}
+def c01(run):
+    gens = [("Gen_Compose", "cmp", 8, 2, 6000, 150000, ["ComposeLaw", "EmitCmp"], 1000)]
+    return query_check(
+        run, gens, RESULT,
+        rule=("TLC enumerates every well-typed plan W2(W1(leaf)) [op W3(leaf')] over 12 leaves (selectors with regex/negative matchers, "
+              "offset, @, range functions, literals, time(), scalar(p), vector(1)), 19 wrappers (functions, unary minus, both aggregation "
+              "kinds incl. grouped topk/bottomk/quantile, scalar arithmetic/comparison with and without bool, clamp_min, timestamp, "
+              "scalar()) and 6 binary combinations, over a dataset with gaps, staleness markers, NaN, an absent and an upper-case label, "
+              "for instant and 12/23-step windows; ComposeLaw is model-checked on every plan; the seeded residue class is replayed and "
+              "validated by QueryTrace. In addition seeded random scenarios (random expression trees of depth <= 4 over random irregular "
+              "datasets, windows of 1..35 steps with steps of 1..5 ticks, tick 0.5/1/15 s, per-query lookbacks) are replayed; their "
+              "expected outcome is computed by TLC from PromQLRef during trace validation. distinct_nontrivial = structural scenarios on which PromQLRef agreed with Prometheus."),
+        assumptions=["Prometheus v0.40.1 is the reference", "OPAQUE values are compared with the reference by the Go comparator (1e-9)"],
+        rnd=("compose", 3000, 60000))
+
+
+RECIPES = {"C01": c01, "C02": c02, "C03": c03, "C04": c04, "C05": c05, "C06": c06}
